@@ -34,6 +34,36 @@ def gen_base(seed, i):
                     cl.cov["band"] = max(nz) if nz else 0
                 cl.obs = [cl.obs[k] for k in keep]
         net.kind += "-nodist"
+    if rng.uniform() < 0.4:
+        # approximate coordinates of ALL unknown points off by up to 1 m (the same in every constraint set): several
+        # linearisation iterations, in which constrained and unconstrained points must be refined alike.  Zenith
+        # angles and azimuths are taken out of these networks (gama's test on linearisation does not cover them:
+        # C06 known finding), heights then rest on slope distances and levelled height differences.
+        for cl in net.clusters:
+            if cl.kind == "obs":
+                keep = [k for k, o in enumerate(cl.obs) if o.kind not in ("z-angle", "azimuth")]
+                if len(keep) != len(cl.obs):
+                    if cl.cov is not None:
+                        C = np.array(cl.cov["C"])[np.ix_(keep, keep)]
+                        nz = [abs(a - b) for a in range(len(keep)) for b in range(len(keep)) if C[a, b] != 0]
+                        cl.cov = dict(band=max(nz) if nz else 0, C=C)
+                    cl.obs = [cl.obs[k] for k in keep]
+        if net.dim == 3 and not any(c.kind == "hdiff" for c in net.clusters):
+            netgen._levelling(rng, net, list(net.points), (), partial=False)
+            for c in net.clusters:
+                if c.kind == "hdiff":
+                    for o in c.obs:
+                        if o.true is None:
+                            o.true = netgen.model_value(net, c, o)
+                            o.val = o.true + float(rng.normal(0, o.stdev)) / 1000.0
+        for q in net.points.values():
+            if q.xy in ("free", "constrained"):
+                q.dE, q.dN = [float(x) for x in rng.uniform(-1, 1, 2)]
+            if q.z in ("free", "constrained"):
+                q.dH = float(rng.uniform(-1, 1))
+        net.params["tol_abs"] = 1e5
+        net.kind += "-perturbed"
+        feats.append("perturbed-approximations")
     return rng, net, feats
 
 
@@ -150,7 +180,8 @@ def run(tier, seed, only=None):
             # different constraint sets linearise at approximate coordinates that differ by the datum shift; gama
             # stops iterating once the linearisation error is below 0.0005 mm, so residuals may differ by that much
             # and v'Pv / standard deviations by ~2*(0.0005 mm / |v|) ~ 2e-4 relative
-            bad = netlevel.compare_physical(B, R, rel=2e-4, what=("obs", "stats"))
+            # angular residuals: 0.0005 mm at a 30 m sight is 0.01 cc
+            bad = netlevel.compare_physical(B, R, rel=2e-4, what=("obs", "stats"), res_tol=1e-2)
             corr = netlevel.correlated_obs_keys(net)
             seen = set()
             for key, msg, okey in bad:
@@ -162,7 +193,7 @@ def run(tier, seed, only=None):
                 ck.violation("datum:%s" % key, "%s  [constraints %s vs all points; %s, case %d]" % (msg, list(s), net.kind, i),
                              dict(wit, input=txt, base_input=txt0))
             ia, ib = shape_invariants(net, B["points"]), shape_invariants(net, R["points"])
-            if net.kind.endswith("nodist"):
+            if "nodist" in net.kind:
                 # scale belongs to the datum: compare distances after normalising both configurations to the
                 # same total length (similarity invariants)
                 sa = sum(v for k, v in ia.items() if k[0] == "d")
